@@ -118,7 +118,7 @@ def solve_vc(vc: VC, timeout_ms: int, known_open: Optional[List[str]] = None) ->
         rec["status"] = {"sat": "ok", "unsat": "engine_error"}.get(res, "undecided")
     if res == "sat" and rec["backend"] == "z3" and vc.kind == "vc":
         m = s.model()
-        rec["model"] = {k: _val(m.eval(e, model_completion=True)) for k, e in vc.model_vars.items()}
+        rec["model"] = {k: (_val(m.eval(e, model_completion=True)) if isinstance(e, z3.ExprRef) else e) for k, e in vc.model_vars.items()}
         # known-finding classes: is there a counterexample outside each recorded class?
         outside = {}
         for fid, pred in vc.known_classes.items():
@@ -132,7 +132,7 @@ def solve_vc(vc: VC, timeout_ms: int, known_open: Optional[List[str]] = None) ->
             outside[fid] = r2
             if r2 == "sat":
                 m2 = s2.model()
-                rec["model_outside_" + fid] = {k: _val(m2.eval(e, model_completion=True)) for k, e in vc.model_vars.items()}
+                rec["model_outside_" + fid] = {k: (_val(m2.eval(e, model_completion=True)) if isinstance(e, z3.ExprRef) else e) for k, e in vc.model_vars.items()}
         rec["outside_known_class"] = outside
     return rec
 
